@@ -191,8 +191,8 @@ class Rec:
                 q = np.where(tol > 0, err / tol, np.where(err > 0, np.inf, 0.0))
             ratio = float(np.max(q)) if np.size(q) else 0.0
             ok = ratio <= 1.0
-            if ratio > self.ratios.get(name, 0.0):
-                self.ratios[name] = ratio
+            if ok and ratio > self.ratios.get(name, 0.0):
+                self.ratios[name] = ratio  # headroom of the comparisons that passed
             if ok and ratio > self.max_ratio:
                 self.max_ratio = ratio
                 self.max_ratio_at = name
